@@ -589,7 +589,7 @@ def eval_gated(body, pt, local, use_bb, leaf, use_idx=None, on_def=None):
         raise
 
 
-def reached_under(body, pt, start, leaf, stops, avoid=()):
+def reached_under(body, pt, start, leaf, stops, avoid=(), strict=False):
     """Blocks of `stops` reachable from `start` when every two- or multi-way test whose operand can be evaluated under the
     valuation `leaf` takes its evaluated edge, the `?` tests take their success edge, and all other tests take both.
     The walk does not continue past a stop block nor into `avoid`."""
@@ -615,6 +615,15 @@ def reached_under(body, pt, start, leaf, stops, avoid=()):
             except (NotEvaluable, Overflow):
                 if isinstance(tt, tuple) and tt and tt[0] == "discr" and isinstance(tt[1], tuple) and tt[1] and tt[1][0] == "try":
                     nxt = [tg for val, tg in t.targets if val == 0] or [t.otherwise]
+                elif t.discr.place is not None and not t.discr.place.proj and not c.loop_blocks_of(x):
+                    # a flag set in several arms (`let pending = a && b; if !pending ..`): its value under the valuation
+                    try:
+                        v = int(eval_gated(body, pt, t.discr.place.local, x, leaf))
+                        nxt = [tg for val, tg in t.targets if val == v] or [t.otherwise]
+                    except (NotEvaluable, Overflow):
+                        nxt = None
+            if nxt is None and strict:
+                raise NotEvaluable(("undecided test", x))
             work.extend(nxt if nxt is not None else c.succ[x])
         else:
             work.extend(c.succ[x])
